@@ -124,8 +124,10 @@ def check_handler(chk, db, config):
                           "default assert_handler is not [[noreturn]] ending in a terminating call (last call: %s)" % n)
 
 
-META_EXTRA = 'DIM (linalg: index variables range over an extent the preconditions equate with the indexed dimension).'
-META = (META[0] + " " + META_EXTRA, META[1])
+META = ("GUARD rules G1-G5 over the clang AST of every contract-checked operation, decided by bounded-model evaluation of the "
+        "guard programs against the contract table; DIM (linalg: index variables range over an extent the preconditions equate "
+        "with the indexed dimension, union-find over (object, dimension))",
+        ["clang 14 parser/sema (tetl-ast)", "specs/contracts.json", "bounded-model evaluator analysis/terms.py"])
 
 
 def run(chk, tier):
